@@ -330,3 +330,127 @@ func RunProcCase(seed int64, o ProcOpts) *HistResult {
 func (h *HistResult) journalf(format string, args ...any) {
 	h.Journal = append(h.Journal, fmt.Sprintf(format, args...))
 }
+
+// RunKillTimeoutCase (C20, clause "no longer than the kill timeout plus scheduling latency") runs an interrupt-ignoring
+// tree under a configured kill timeout K (including 0 = no grace period and a negative value) next to a control job
+// whose process dies on the interrupt at once. Both are canceled together; the control's cancel-to-report latency L
+// calibrates what "scheduling latency" currently is on this machine. Everything is counted in heartbeats of the harness
+// process. Oracle: the ignorer is reported finished within K + max(1.5 s, 10 L) and none of its processes is alive then.
+func RunKillTimeoutCase(seed int64, workDir string, variant int) *HistResult {
+	res := &HistResult{Seed: seed, Situations: map[string]map[string]struct{}{}, Evaluations: map[string]int{}}
+	find := func(sig, format string, args ...any) {
+		res.Findings = append(res.Findings, Finding{Props: []string{"C20"}, Sig: sig, Detail: fmt.Sprintf(format, args...), Step: -1})
+	}
+	timeouts := []time.Duration{0, 150 * time.Millisecond, -time.Second, 700 * time.Millisecond}
+	K := timeouts[variant%len(timeouts)]
+	scripts := [][]string{
+		{`PXV_MARK={{.mark}} bash -c 'trap "" INT; sleep 300'`},
+		{`PXV_MARK={{.mark}} bash -c 'trap "" INT; sleep 300 & sleep 301; wait'`},
+		{`PXV_MARK={{.mark}} bash -c 'trap "" INT; sleep 300' | cat`},
+	}
+	script := scripts[(variant/len(timeouts))%len(scripts)]
+	leaves := []int{1, 2, 1}[(variant/len(timeouts))%len(scripts)]
+	dir, err := os.MkdirTemp(workDir, "kt-")
+	if err != nil {
+		res.Inconclusive = err.Error()
+		return res
+	}
+	defer os.RemoveAll(dir)
+	run := fmt.Sprintf("k%d-%d", os.Getpid(), seed&0xffffff)
+	mk := func(lines []string) definition.PipelineDef {
+		return definition.PipelineDef{Concurrency: 2, Tasks: map[string]definition.TaskDef{"tree": {Script: lines}}, SourcePath: "gen"}
+	}
+	specs := []gen.PipeSpec{
+		{Name: "ignorer", Def: mk(script), Graph: gen.Graph{Names: []string{"tree"}, Deps: map[string][]string{}}},
+		{Name: "control", Def: mk([]string{"PXV_MARK={{.mark}} sleep 300"}), Graph: gen.Graph{Names: []string{"tree"}, Deps: map[string][]string{}}},
+	}
+	sys, _, _, err := realSysKT(specs, dir, &K)
+	if err != nil {
+		res.Inconclusive = err.Error()
+		return res
+	}
+	defer sys.Close()
+	var beats atomic.Int64
+	stopBeat := make(chan struct{})
+	go func() {
+		tk := time.NewTicker(5 * time.Millisecond)
+		defer tk.Stop()
+		for {
+			select {
+			case <-stopBeat:
+				return
+			case <-tk.C:
+				beats.Add(1)
+			}
+		}
+	}()
+	defer close(stopBeat)
+	markI, markC := run+"-i", run+"-c"
+	defer func() {
+		for _, m := range []string{markI, markC} {
+			for _, pid := range scanMarked(m) {
+				if p, err := os.FindProcess(pid); err == nil {
+					_ = p.Kill()
+				}
+			}
+		}
+	}()
+	idI, cls1 := sys.Schedule(0, "ignorer", map[string]interface{}{"mark": markI}, "u")
+	idC, cls2 := sys.Schedule(0, "control", map[string]interface{}{"mark": markC}, "u")
+	if cls1 != "ok" || cls2 != "ok" {
+		res.Inconclusive = "schedule: " + cls1 + " " + cls2
+		return res
+	}
+	deadline := time.Now().Add(10 * time.Second)
+	for len(scanMarked(markI)) < leaves || len(scanMarked(markC)) < 1 {
+		if time.Now().After(deadline) {
+			res.Inconclusive = "process trees did not come up"
+			return res
+		}
+		time.Sleep(2 * time.Millisecond)
+	}
+	time.Sleep(20 * time.Millisecond) // let bash install its trap (shaping only)
+	t0 := beats.Load()
+	if c := sys.Cancel(0, idC); c != "ok" {
+		find("C20:cancel-result", "cancel of the control job returned %q", c)
+	}
+	if c := sys.Cancel(0, idI); c != "ok" {
+		find("C20:cancel-result", "cancel returned %q", c)
+	}
+	var doneI, doneC int64 = -1, -1
+	kBeats := int64(0)
+	if K > 0 {
+		kBeats = int64(K / (5 * time.Millisecond))
+	}
+	for beats.Load()-t0 < kBeats+int64(12*time.Second/(5*time.Millisecond)) && (doneI < 0 || doneC < 0) {
+		if j, ok := sys.ReadJob(idC); ok && j.Completed && doneC < 0 {
+			doneC = beats.Load() - t0
+		}
+		if j, ok := sys.ReadJob(idI); ok && j.Completed && doneI < 0 {
+			doneI = beats.Load() - t0
+		}
+		time.Sleep(500 * time.Microsecond)
+	}
+	alive := scanMarked(markI)
+	res.sit("C20", fmt.Sprintf("kill-timeout %v script %d", K, (variant/len(timeouts))%len(scripts)))
+	res.Evaluations["C20"]++
+	res.journalf("kill timeout %v: control finished after %d beats, ignorer after %d beats (5 ms each), %d processes alive at report", K, doneC, doneI, len(alive))
+	if doneC < 0 {
+		res.Inconclusive = "the control job (plain sleep) was not reported finished within 12 s after its cancel: machine too loaded to judge"
+		return res
+	}
+	allow := int64(1500 * time.Millisecond / (5 * time.Millisecond))
+	if 10*doneC > allow {
+		allow = 10 * doneC
+	}
+	switch {
+	case doneI < 0:
+		find("C20:canceled-job-never-reported-finished", "kill timeout %v: the job with an interrupt-ignoring tree was not reported finished within kill timeout + 12 s after the cancel (control job: %d ms)", K, doneC*5)
+	case doneI > kBeats+allow:
+		find("C20:finish-takes-longer-than-kill-timeout", "kill timeout %v: the job with an interrupt-ignoring tree was reported finished %d ms after the cancel; a job whose process dies on the interrupt took %d ms at the same time (allowance max(1.5 s, 10x that))", K, doneI*5, doneC*5)
+	}
+	if doneI >= 0 && len(alive) > 0 {
+		find("C20:alive-at-report:kill-timeout-case", "kill timeout %v: %d processes alive when the job was reported finished: %s", K, len(alive), describePids(alive))
+	}
+	return res
+}
